@@ -51,14 +51,14 @@ func Run(c *core.Ctx) {
 	if p != nil {
 		// R6: no command is forwarded (and no checkpoint offset stamped) while a filter verdict says drop
 		c03.VerdictHonoured(c, p, "R6.filtered-stretch")
-		c.Expect("R6.filtered-stretch", 1)
+		c03.Expect(c, "R6.filtered-stretch", 1)
 	}
-	c.Expect("R1.envelope", 25)
-	c.Expect("R2.offset", 8)
-	c.Expect("R3.one-db", 4)
-	c.Expect("R3.barrier", 2)
-	c.Expect("R3.automaton", 22)
-	c.Expect("R5.resume", 16)
+	c03.Expect(c, "R1.envelope", 25)
+	c03.Expect(c, "R2.offset", 8)
+	c03.Expect(c, "R3.one-db", 4)
+	c03.Expect(c, "R3.barrier", 2)
+	c03.Expect(c, "R3.automaton", 22)
+	c03.Expect(c, "R5.resume", 16)
 }
 
 // ---------------------------------------------------------------------------
@@ -92,6 +92,72 @@ func fieldName(info *types.Info, s *c03.Sender, scope ast.Node, arg ast.Expr) as
 		return v
 	}
 	return arg
+}
+
+// runIdStored: the run id the sender writes into every checkpoint is ds.runId.
+// Sync must set it from the run id sendPSyncCmd returned on every path that
+// leads from a successful PSYNC into the incremental phase -- FULLRESYNC and
+// CONTINUE alike: a new process starts with an empty ds.runId.
+func runIdStored(c *core.Ctx, rule string, psync *core.Fn) {
+	sp := c03.NewSyncSpan(c)
+	if sp == nil {
+		return
+	}
+	const key = "Sync/runid-stored"
+	ws := c03.FieldWrites(c, c03.Syncer, "runId")
+	elsewhere := false
+	var inSync []c03.FieldWrite
+	for _, w := range ws {
+		if w.In.Lit == nil && w.In.Decl == sp.Fn.Decl {
+			inSync = append(inSync, w)
+		} else {
+			elsewhere = true
+		}
+	}
+	if len(ws) == 0 {
+		c.Failf(rule, key, sp.Fn.Decl.Pos(), "ds.runId is never set: every checkpoint stores an empty run id, so a restart sends PSYNC with an unknown run id and the source answers FULLRESYNC (the stored offset is useless)")
+		return
+	}
+	sets := func(n ast.Node) bool {
+		return c03.InCallee(c, sp.Info, n, func(i *types.Info, m ast.Node) bool {
+			as, ok := m.(*ast.AssignStmt)
+			if !ok {
+				return false
+			}
+			for _, l := range as.Lhs {
+				if core.IsFieldNamed(i, l, c03.Syncer, "runId") {
+					return true
+				}
+			}
+			return false
+		})
+	}
+	w := sp.Skips(sets)
+	switch {
+	case w == nil:
+		// and what is stored is the run id the PSYNC returned
+		good := len(inSync) > 0 || elsewhere
+		for _, fw := range inSync {
+			ok := false
+			if fw.Rhs != nil {
+				for _, o := range c03.Origins(sp.Info, sp.Fn.Decl, fw.Rhs) {
+					if call, isCall := ast.Unparen(o.Expr).(*ast.CallExpr); isCall && o.Expr != nil && core.CalleeFunc(sp.Info, call) == psync.Obj && o.Res == 3 {
+						ok = true
+					}
+				}
+			}
+			good = good && ok
+		}
+		if good {
+			c.Okf(rule, key, sp.Fn.Decl.Pos(), "ds.runId is set on every path from the PSYNC into the incremental phase")
+		} else {
+			c.Undecidedf(rule, key, sp.Fn.Decl.Pos(), "ds.runId is set before the incremental phase, but not recognisably from the run id sendPSyncCmd returned")
+		}
+	case elsewhere || !sp.Direct:
+		c.Undecidedf(rule, key, sp.Fn.Decl.Pos(), "a path from the PSYNC into the incremental phase does not set ds.runId in Sync; it is also written elsewhere / the phase starts in a helper")
+	default:
+		c.Check(rule, key, inSync[0].Stmt.Pos(), false, "ds.runId (the run id the sender writes into every checkpoint) is not set on every path from a successful sendPSyncCmd into the incremental phase: on that path (e.g. PSYNC answered with +CONTINUE in a fresh process) the checkpoint's run id field is overwritten with a stale or empty value, so the next restart sends PSYNC with a run id the source does not know and gets FULLRESYNC: the stored offset is useless and resume is lost", w...)
+	}
 }
 
 func anyLhs(as *ast.AssignStmt, pred func(ast.Expr) bool) bool {
@@ -142,8 +208,12 @@ func r1(c *core.Ctx, s *c03.Sender) *envelope {
 				continue
 			}
 			core.Inspect(b.Root(), func(n ast.Node) bool {
-				if st, ok := n.(ast.Stmt); ok && (c03.ConnCmd(b.Pkg.TypesInfo, st, "multi") != nil || c03.ConnCmd(b.Pkg.TypesInfo, st, "exec") != nil) {
-					if _, isBlock := st.(*ast.BlockStmt); !isBlock {
+				call, ok := n.(*ast.CallExpr)
+				if !ok || b.Lit == nil && b.Decl == s.Fn.Decl && s.InFlush(call) {
+					return true
+				}
+				if site := c03.SendOf(b.Pkg.TypesInfo, call); site != nil && len(site.Args) > 0 {
+					if v, isC := core.StringConst(b.Pkg.TypesInfo, site.Args[0]); isC && (strings.EqualFold(v, "multi") || strings.EqualFold(v, "exec")) {
 						elsewhere = true
 					}
 				}
@@ -265,9 +335,31 @@ func r1(c *core.Ctx, s *c03.Sender) *envelope {
 			return nil
 		}
 		exemption(c, s, e)
+		flagPerFlush(c, s, e)
+	}
+	// a path that runs through `flag = false` (and the flag is not rewritten once the envelope began,
+	// see flag-stable) is not a batched path either
+	clearsFlag := func(n c03.XNode) bool {
+		as, ok := n.N.(*ast.AssignStmt)
+		if !ok || e.nb == nil || len(as.Lhs) != len(as.Rhs) {
+			return false
+		}
+		for i, l := range as.Lhs {
+			if c03.IsObj(n.C.Info, e.nb)(l) {
+				if tv, ok := n.C.Info.Types[as.Rhs[i]]; ok && tv.Value != nil && tv.Value.String() == "false" {
+					return true
+				}
+			}
+		}
+		return false
 	}
 	q := func(query c03.XQuery) []string {
 		query.AvoidEdge = e.nbFalse
+		if av := query.Avoid; av != nil {
+			query.Avoid = func(n c03.XNode) bool { return av(n) || clearsFlag(n) }
+		} else {
+			query.Avoid = clearsFlag
+		}
 		return x.Path(query)
 	}
 	pos := func(p c03.XPoint) token.Pos { return p.P.Node().Pos() }
@@ -480,6 +572,61 @@ func exemption(c *core.Ctx, s *c03.Sender, e *envelope) {
 	if n == 0 {
 		c.Okf(rule, "unbatched-only-for-ping", s.Lit.Pos(), "the batching flag is never cleared")
 	}
+}
+
+// flagPerFlush: the batching flag describes ONE batch. When the variable lives
+// outside the flush routine its value survives from one flush to the next, so
+// every flush must assign it before reading it. A flag that is only ever
+// cleared inside the routine (and set once, outside the receive loop) stays
+// off for the rest of the process after the first exempt batch.
+func flagPerFlush(c *core.Ctx, s *c03.Sender, e *envelope) {
+	const rule, key = "R1.envelope", "flag-per-batch"
+	info := s.Info
+	if e.nb == nil || s.Lit.Pos() <= e.nb.Pos() && e.nb.Pos() < s.Lit.End() {
+		return // declared inside the routine: fresh for every batch
+	}
+	isWrite := func(n ast.Node) bool {
+		as, ok := n.(*ast.AssignStmt)
+		if !ok {
+			return false
+		}
+		for _, l := range as.Lhs {
+			if c03.IsObj(info, e.nb)(l) {
+				return true
+			}
+		}
+		return false
+	}
+	reads := func(n ast.Node) bool { return !isWrite(n) && core.Mentions(info, n, e.nb) }
+	w := s.LG.Path(cfgq.Query{Avoid: isWrite, Target: reads})
+	if w == nil {
+		c.Okf(rule, key, s.Lit.Pos(), "the batching flag is assigned in every flush before it is read")
+		return
+	}
+	// every write other than the declaration clears the flag?
+	onlyCleared, nw := true, 0
+	core.InspectAll(s.Fn.Decl.Body, func(m ast.Node) bool {
+		as, ok := m.(*ast.AssignStmt)
+		if !ok || len(as.Lhs) != len(as.Rhs) {
+			return true
+		}
+		for i, l := range as.Lhs {
+			id, ok := ast.Unparen(l).(*ast.Ident)
+			if !ok || core.ObjOf(info, id) != e.nb || info.Defs[id] == e.nb {
+				continue
+			}
+			nw++
+			if tv, ok := info.Types[as.Rhs[i]]; !ok || tv.Value == nil || tv.Value.String() != "false" {
+				onlyCleared = false
+			}
+		}
+		return true
+	})
+	if onlyCleared && nw > 0 {
+		c.Check(rule, key, s.Lit.Pos(), false, fmt.Sprintf("the batching flag `%s` lives outside the flush routine and is only ever cleared there: after the first exempt batch (a lone keep-alive PING flushed by the ticker) it stays false, so every later batch is sent without MULTI/EXEC and without its checkpoint; the checkpoint on the target freezes and a restart applies everything after it a second time", e.nb.Name()), w...)
+		return
+	}
+	c.Undecidedf(rule, key, s.Lit.Pos(), "the batching flag `%s` is declared outside the flush routine and can be read there before it is assigned: its value may be left over from an earlier batch", e.nb.Name())
 }
 
 // isLastIndex: e is batch[len(batch)-1] written out.
@@ -1318,6 +1465,7 @@ func r5(c *core.Ctx, p *c03.Parser) {
 	if stored == 0 {
 		c.Failf(rule, "sendPSyncCmd/stores-announced-offset", psync.Decl.Pos(), "sendPSyncCmd never stores the offset announced by the source: after FULLRESYNC all command offsets are relative to a stale base")
 	}
+	runIdStored(c, rule, psync)
 	c03.PSyncContinue(c, rule)
 	if p != nil {
 		c03.StartDb(c, p, rule)
